@@ -757,6 +757,8 @@ func (c *Client) getHost(host string) *clientHost {
 	if h.config.TLS == config.TLSInsecure || len(c.rootCAPool) > 0 || len(c.rootCADirs) > 0 || h.config.RegCert != "" || (h.config.ClientCert != "" && h.config.ClientKey != "") {
 		t, ok := h.httpClient.Transport.(*http.Transport)
 		if ok {
+			// the transport may be shared with other hosts (WithTransport, WithHTTPClient), only change a copy
+			t = t.Clone()
 			var tlsc *tls.Config
 			if t.TLSClientConfig != nil {
 				tlsc = t.TLSClientConfig.Clone()
